@@ -89,6 +89,7 @@ fn base_ops() -> Vec<(&'static str, u32)> {
         ("eq", 0),
         ("into_vec", 1),
         ("deser_seq", 0),
+        ("adaptor_iter_mut", 0),
     ]
 }
 
@@ -165,12 +166,12 @@ pub fn profile(prop: u8, thorough: bool) -> Profile {
         }
         8 => {
             p.big_w = 15;
-            p.ops = with(p.ops, &[("retain", 10), ("retain_mut", 12), ("iter_mut", 12), ("pop_if", 14), ("clear", 0), ("drain", 0)]);
+            p.ops = with(p.ops, &[("retain", 10), ("retain_mut", 12), ("iter_mut", 12), ("pop_if", 14), ("adaptor_iter_mut", 6), ("clear", 0), ("drain", 0)]);
             p.max_ops = if thorough { 80 } else { 30 };
         }
         9 => {
             p.big_w = 5;
-            p.ops = with(p.ops, &[("iter_mut", 30), ("clear", 0), ("drain", 0)]);
+            p.ops = with(p.ops, &[("iter_mut", 30), ("adaptor_iter_mut", 14), ("clear", 0), ("drain", 0)]);
             p.size_w = [1, 1, 2, 2, 6, 3, 0, 0];
             p.max_ops = 14;
             p.prog_len = 44;
@@ -453,6 +454,9 @@ pub fn op_strategy(p: &Profile, kind: Kind, u: u32, dom: u8) -> BoxedStrategy<Op
                 any::<u8>(),
             )
                 .prop_map(|(which, comp, a, b)| Op::Adapt { which, comp, a, b })
+                .boxed(),
+            "adaptor_iter_mut" => (proptest::sample::select(ALL_COMPS.to_vec()), any::<u8>(), any::<u8>())
+                .prop_map(|(comp, a, b)| Op::Adapt { which: ItKind::IterMut, comp, a, b })
                 .boxed(),
             "extend" => (pairs(u, dom, pl), hint(p.huge_hints)).prop_map(|(pairs, hint)| Op::Extend { pairs, hint }).boxed(),
             "append" => (pairs(u, dom, pl), any::<bool>()).prop_map(|(pairs, swap_roles)| Op::Append { pairs, swap_roles }).boxed(),
